@@ -116,10 +116,18 @@ Definition etym_slot (E : etym) (cog : Z) (j : nat) : list Z :=
   match zget E cog with Some v => nth j v [] | None => [] end.
 (* the cognate ids a row carries in column ref *)
 Definition carried (ref : nat) (r : row) : list Z := cogs_of (nth ref (snd r) POISON).
+(* distinct values in order of first occurrence (the key order of a Python dict filled in that order) *)
+Definition first_occ (l : list Z) : list Z :=
+  fold_left (fun acc x => if zmem x acc then acc else acc ++ [x]) l [].
+
 Definition is_nil {A} (l : list A) : bool := match l with [] => true | _ => false end.
 (* the rows of one cell (concept c, language l), in row order *)
 Definition cellrows (D : list row) (ri ci : nat) (c l : Z) : list row :=
   filter (fun r => (rkey ri r =? c) && (rkey ci r =? l)) D.
+
+(* the number of array lines of a concept: the size of its fullest cell *)
+Definition height_of (D : list row) (ri ci : nat) (cols : list Z) (c : Z) : nat :=
+  fold_right Nat.max O (map (fun l => List.length (cellrows D ri ci c l)) cols).
 
 (* ------------------------------------------------------ the whole object *)
 (* the names of the two dimensions (_row_name, _col_name: alias-resolved) and _meta *)
@@ -165,6 +173,17 @@ Definition build_gen (t : conf) (K : keys) (hdr : list string) (d : list row)
           end
       | _, _ => None
       end
+  end.
+
+(* Wordlist(file): read_qlc delivers the lower-cased header and the rows as
+   strings; QLCParser.__init__ converts every column with the class of its
+   header name; everything else is the dictionary constructor *)
+Definition load_file (t : conf) (kinds : list ((string * list string) * kind)) (K : keys)
+           (hdr : list string) (d : list (Z * list raw)) (row col : string) (meta : list (string * cell))
+  : option wl :=
+  match convert_rows (read_kinds kinds) hdr d with
+  | Some typed => build_gen t K hdr typed row col meta
+  | None => None
   end.
 
 Definition build (t : conf) (K : keys) (hdr : list string) (d : list row) : option wl :=
